@@ -5,6 +5,8 @@
 (* A directory is a set of entries [name, kind].  Names are indices into a *)
 (* pool whose byte-wise order is the index order.  Kinds:                  *)
 (*   "good"      a readable file holding a valid FeedMessage               *)
+(*   "goodT"     the same, with a header timestamp shared by all goodT     *)
+(*   "goodR"     the same, serialised with the entities before the header  *)
 (*   "subdir"    a sub-directory                                           *)
 (*   "vanish"    a file deleted after the listing, before it is read       *)
 (*   "empty"     an empty file (no header: not a FeedMessage)              *)
@@ -19,8 +21,10 @@
 (***************************************************************************)
 EXTENDS VCommon
 
-Kinds == {"good", "subdir", "vanish", "empty", "truncated", "corrupt", "dangling"}
-IsGood(e) == e.kind = "good"
+Kinds == {"good", "goodT", "goodR", "subdir", "vanish", "empty", "truncated", "corrupt", "dangling"}
+(* "goodT": a good file whose header timestamp is the same for all such files; "goodR": a valid message whose    *)
+(* entities are serialised before its header (protobuf allows any field order)                                   *)
+IsGood(e) == e.kind \in {"good", "goodT", "goodR"}
 
 NameLess(a, b) == a.name < b.name
 
